@@ -88,6 +88,12 @@ func (s *indexKVStore) GetValue(bucketID uint32, key []byte) (id uint32, ok bool
 
 // GetValues returns all values for bucket.
 func (s *indexKVStore) GetValues(bucketID uint32) (ids []uint32, err error) {
+	// find from memory BEFORE taking the snapshot, see FindValuesByRegexp
+	s.lock.RLock()
+	ids = s.getValuesFromMem(s.mutable, bucketID, ids)
+	ids = s.getValuesFromMem(s.immutable, bucketID, ids)
+	s.lock.RUnlock()
+
 	snapshot := s.getSnapshot()
 	verifhook.Yield("index.kvstore.values.afterSnapshot")
 
@@ -98,15 +104,8 @@ func (s *indexKVStore) GetValues(bucketID uint32) (ids []uint32, err error) {
 	}
 	if bucket != nil {
 		defer bucket.Release()
-		ids = bucket.GetValues()
+		ids = append(ids, bucket.GetValues()...)
 	}
-
-	// find from memory
-	s.lock.RLock()
-	defer s.lock.RUnlock()
-
-	ids = s.getValuesFromMem(s.mutable, bucketID, ids)
-	ids = s.getValuesFromMem(s.immutable, bucketID, ids)
 	return ids, nil
 }
 
@@ -161,6 +160,12 @@ func (s *indexKVStore) CollectKVs(bucketID uint32, values *roaring.Bitmap, resul
 		}
 	}
 
+	// memory tables BEFORE taking the snapshot, see FindValuesByRegexp
+	s.lock.RLock()
+	collect(s.mutable)
+	collect(s.immutable)
+	s.lock.RUnlock()
+
 	snapshot := s.getSnapshot()
 	verifhook.Yield("index.kvstore.collect.afterSnapshot")
 
@@ -169,11 +174,6 @@ func (s *indexKVStore) CollectKVs(bucketID uint32, values *roaring.Bitmap, resul
 	if err != nil {
 		return err
 	}
-
-	s.lock.RLock()
-	collect(s.mutable)
-	collect(s.immutable)
-	s.lock.RUnlock()
 
 	if bucket != nil {
 		defer bucket.Release()
@@ -212,6 +212,13 @@ func (s *indexKVStore) Suggest(bucketID uint32, prefix string, limit int) ([]str
 		return sortResult(result)
 	}
 
+	// memory tables BEFORE taking the snapshot, see FindValuesByRegexp
+	var result []string
+	s.lock.RLock()
+	result = append(result, suggest(s.mutable)...)
+	result = append(result, suggest(s.immutable)...)
+	s.lock.RUnlock()
+
 	snapshot := s.getSnapshot()
 	verifhook.Yield("index.kvstore.suggest.afterSnapshot")
 
@@ -220,12 +227,6 @@ func (s *indexKVStore) Suggest(bucketID uint32, prefix string, limit int) ([]str
 	if err != nil {
 		return nil, err
 	}
-
-	var result []string
-	s.lock.RLock()
-	result = append(result, suggest(s.mutable)...)
-	result = append(result, suggest(s.immutable)...)
-	s.lock.RUnlock()
 
 	if bucket != nil {
 		defer bucket.Release()
